@@ -3,6 +3,14 @@ package c04
 
 import (
 	"errors"
+	"strings"
+
+	"github.com/bitcoin-sv/block-headers-service/config"
+	"github.com/bitcoin-sv/block-headers-service/internal/chaincfg/chainhash"
+	"github.com/bitcoin-sv/block-headers-service/internal/zzverif/c01"
+	"github.com/bitcoin-sv/block-headers-service/internal/zzverif/c16"
+	"github.com/bitcoin-sv/block-headers-service/internal/zzverif/happ"
+	"github.com/bitcoin-sv/block-headers-service/internal/zzverif/vhgin"
 
 	"github.com/bitcoin-sv/block-headers-service/bhserrors"
 	"github.com/bitcoin-sv/block-headers-service/domains"
@@ -307,4 +315,64 @@ func sameAnswer(h *domains.BlockHeader, r hstore.H) bool {
 	return vh.And(vh.HashEq(h.Hash, r.Hash), vh.HashEq(h.PreviousBlock, r.Prev), vh.HashEq(h.MerkleRoot, r.Merkle), h.Height == r.Height,
 		h.Version == r.Version, h.Bits == r.Bits, h.Nonce == r.Nonce, h.Timestamp.Unix() == r.Ts.Unix(),
 		vh.BigEq(h.Chainwork, r.W), vh.BigEq(h.CumulatedWork, r.CW))
+}
+
+// HarnessFreshAnswers: no read endpoint answers from state kept outside the store. One arbitrary
+// request to a read route, then one arbitrary header is ingested through the same process, then
+// the same request again: the second answer equals the answer of a freshly started process over
+// the same database. (A per-process cache of anything a reorganisation or a new header changes
+// shows up here, whatever its key.)
+func HarnessFreshAnswers(k int, route int) {
+	pre := make([]hstore.H, k)
+	for i := range pre {
+		pre[i] = hstore.NondetH()
+	}
+	vh.Assume(hstore.Inv(pre, nil))
+	vh.Assume(hstore.PositiveWork(pre))
+	db := hstore.Store(pre)
+	cfg := &config.HTTPConfig{UseAuth: false, AuthToken: "admin-token"}
+	newHash := vh.NondetHash("newhash")
+	app := happ.NewWithHasher(db, cfg, 3, 6, fixedHasher{newHash})
+	var routes []vhgin.Route
+	for _, r := range vhgin.Routes(app.Engine) {
+		if strings.HasPrefix(r.Path, "/api/v1/chain/") {
+			routes = append(routes, r)
+		}
+	}
+	vh.Assert("C04/read-routes-registered", len(routes) >= 9)
+	if route >= len(routes) {
+		return
+	}
+	r := routes[route]
+	vh.Observe("route", r.Method+" "+r.Path)
+	req := c16.Request(r.Method, r.Path)
+
+	bs := domains.BlockHeaderSource{Version: 1, PrevBlock: vh.NondetHash("sprev"), MerkleRoot: vh.NondetHash("smerkle"),
+		Timestamp: vh.NondetTime("sts"), Bits: c01.BitsMenu[2+vh.Choose(2)], Nonce: vh.NondetU32("snonce")}
+	hashes, prevs := []chainhash.Hash{newHash}, []chainhash.Hash{bs.PrevBlock}
+	for i := range pre {
+		hashes, prevs = append(hashes, pre[i].Hash), append(prevs, pre[i].Prev)
+		vh.Assume(!vh.HashEq(pre[i].Hash, newHash))
+	}
+	vh.Assume(hstore.Acyclic(hashes, prevs))
+	vh.Assume(!vh.HashEq(newHash, pre[0].Prev))
+
+	_ = vhgin.Serve(app.Engine, r.Method, r.Path, req)
+
+	_, err := app.Services.Chains.Add(bs)
+	vh.Observe("added", err == nil)
+
+	again := vhgin.Serve(app.Engine, r.Method, r.Path, req)
+	fresh := vhgin.Serve(happ.New(db, cfg, 3, 6).Engine, r.Method, r.Path, req)
+	vh.Observe("status", again.Status)
+	vh.Assert("C04/answer-after-ingestion-equals-a-fresh-process", vhgin.SameAnswer(again, fresh))
+	vh.Reach("end")
+}
+
+// fixedHasher gives the submitted header an arbitrary hash (every relation to stored hashes and
+// to the request's parameters is then covered, and replays do not depend on SHA-256).
+type fixedHasher struct{ h chainhash.Hash }
+
+func (f fixedHasher) BlockHash(*domains.BlockHeaderSource) domains.BlockHash {
+	return domains.BlockHash(f.h)
 }
